@@ -117,6 +117,7 @@ func runCase(c Case) result {
 	var expected [][]byte
 	res := result{}
 	w0 := len(p.CA.WriteLog)
+	wireAtLastAccepted := 0
 	for i, m := range c.Msgs {
 		payload := kit.Pattern(m.Len, c.Salt+uint32(i)*131)
 		cuts := m.Cuts
@@ -215,6 +216,7 @@ func runCase(c Case) result {
 			break
 		}
 		expected = append(expected, want)
+		wireAtLastAccepted = len(p.CA.WriteLog) - w0
 	}
 	res.wireFrames = len(p.CA.WriteLog) - w0
 
@@ -322,6 +324,10 @@ func runCase(c Case) result {
 		if err := R.StartMessageRead(kit.Bg); err == nil {
 			res.violation = "receiver produced an extra message after the accepted sequence"
 		}
+	} else if c.Recv == RMsgGetBytes && res.rejected && res.wireFrames > wireAtLastAccepted {
+		// the sender was refused in the middle of a message whose first partial frames are already on the
+		// wire: a byte-level reader may legitimately read those bytes (the message just never ends), so
+		// "one more byte" says nothing about message boundaries here
 	} else if extra, err := recvOne(-1); err == nil {
 		res.violation = fmt.Sprintf("receiver produced an extra message (%d bytes) after the accepted sequence", len(extra))
 	}
